@@ -30,6 +30,27 @@ func (em *emitter) emitExprK(expr ast.Expression, dstType reflect.Type) (int8, b
 // emitExprR emits expr into register reg with the given type.
 func (em *emitter) emitExprR(expr ast.Expression, dstType reflect.Type, reg int8) {
 	_, _ = em._emitExpr(expr, dstType, reg, true, false)
+	// An index expression, a field selector, a pointer indirection and a
+	// non-local variable are emitted as a reference to the element, field or
+	// variable. If the value is an array or a struct, a copy is stored in the
+	// register, otherwise the register, for example the parameter of a called
+	// function, would be an alias of the original value.
+	if reg > 0 {
+		if k := dstType.Kind(); k == reflect.Array || k == reflect.Struct {
+			switch expr := expr.(type) {
+			case *ast.Index, *ast.Selector:
+				em.fb.emitMove(false, reg, reg, k)
+			case *ast.UnaryOperator:
+				if expr.Op == ast.OperatorPointer {
+					em.fb.emitMove(false, reg, reg, k)
+				}
+			case *ast.Identifier:
+				if !em.fb.declaredInFunc(expr.Name) {
+					em.fb.emitMove(false, reg, reg, k)
+				}
+			}
+		}
+	}
 }
 
 // _emitExpr emits expression expr.
